@@ -937,15 +937,58 @@ func ruleStreamCommit(c *Ctx, r *Rule) {
 			name := c.fnName(fn)
 			r.Ob(isLoadOfField(ci.Common().Args[1], pipelinePkg, "Event", "SeqID"), name+"|value", ci.Pos(), "commitSeq is advanced to the committed event's own SeqID")
 			okG := false
+			var loads []ssa.Instruction
 			for _, l := range c.unitGuards(ci) {
 				if op, x, y, ok := cmpLit(l); ok {
 					if op == token.GEQ && isLoadOfField(x, pipelinePkg, "Event", "SeqID") && isAtomicLoadOf(y, "stream", "commitSeq") {
 						okG = true
+						loads = append(loads, instrOf(stripConv(y)))
 					}
 					if op == token.LEQ && isLoadOfField(y, pipelinePkg, "Event", "SeqID") && isAtomicLoadOf(x, "stream", "commitSeq") {
 						okG = true
+						loads = append(loads, instrOf(stripConv(x)))
 					}
 				}
+			}
+			// the comparison and the store are one critical section: the value compared is read under
+			// the same lock, which is not released before the store
+			for _, ld := range loads {
+				if ld == nil {
+					continue
+				}
+				okR, whyR := c.heldInterproc(ld, lockRef{fn.Params[0], ".mu"}, 2)
+				if okR {
+					isUnlock := func(in2 ssa.Instruction) bool {
+						cj, ok := in2.(ssa.CallInstruction)
+						if !ok {
+							return false
+						}
+						if _, isDefer := cj.(*ssa.Defer); isDefer {
+							return false
+						}
+						for _, ev := range c.lockEvents(cj) {
+							if ev.op == opUnlock && ev.ref.path == ".mu" {
+								return true
+							}
+						}
+						return false
+					}
+					for _, b := range fn.Blocks {
+						for _, u := range b.Instrs {
+							if !isUnlock(u) {
+								continue
+							}
+							to, _ := c.pathExists(fn, ld, func(in2 ssa.Instruction) bool { return in2 == u }, func(in2 ssa.Instruction) bool { return in2 == ssa.Instruction(ci) })
+							if !to {
+								continue
+							}
+							if again, _ := c.pathExists(fn, u, func(in2 ssa.Instruction) bool { return in2 == ssa.Instruction(ci) }, nil); again {
+								okR, whyR = false, "the lock is released between the comparison and the store"
+							}
+						}
+					}
+				}
+				r.Ob(okR, name+"|check-and-store-one-region", ld.Pos(), "the sequence id is compared with a commitSeq read under stream.mu, and the lock is kept until the store: two committers cannot both pass the test and store out of order"+ifs(!okR, " ("+whyR+")"))
 			}
 			r.Ob(okG, name+"|monotone", ci.Pos(), "commitSeq never moves backwards: the store is control-dependent on event.SeqID >= commitSeq; guards: "+c.clausesString(c.guards(fn)[ci.Block()]))
 			okL, why := c.heldInterproc(ci, lockRef{fn.Params[0], ".mu"}, 2)
